@@ -84,6 +84,22 @@ theorem bcdEnc_zero : bcdEnc 0 = [] := by
 theorem bcdEnc_pos (k : Nat) (h : k ≠ 0) : bcdEnc k = bcdEnc (k / 100) ++ [byte ((k / 10 % 10) * 16 + k % 10)] := by
   rw [bcdEnc]; simp [h]
 
+theorem bcdEncFuel_eq : ∀ (fuel k : Nat), k ≤ fuel → bcdEncFuel fuel k = bcdEnc k := by
+  intro fuel
+  induction fuel with
+  | zero => intro k h; have : k = 0 := by omega
+            subst this; simp [bcdEncFuel, bcdEnc_zero]
+  | succ fuel ih =>
+    intro k h
+    by_cases h0 : k = 0
+    · subst h0; simp [bcdEncFuel, bcdEnc_zero]
+    · rw [bcdEnc_pos k h0]
+      simp only [bcdEncFuel, h0, if_false]
+      rw [ih (k / 100) (by omega)]
+
+/-- the kernel-evaluable encoder is the same function. -/
+theorem bcdEncK_eq (k : Nat) : bcdEncK k = bcdEnc k := bcdEncFuel_eq k k (Nat.le_refl k)
+
 /-- decode ∘ encode = id on every value that fits the integer width. -/
 theorem bcdDecFrom_bcdEnc (w : Nat) : ∀ k, k < 256 ^ w → bcdDecFrom w 0 (bcdEnc k) = .ok k := by
   intro k
